@@ -19,10 +19,17 @@ type locInfo struct {
 
 func (x *Exec) staticLocations() []locInfo {
 	k := x.contracts()
+	pk := x.pkg
+	if k.Singleton == "" && k.Uses != "" {
+		if up := x.w.PkgByName(k.Uses); up != nil {
+			pk = up
+			k = up.Contracts
+		}
+	}
 	if k.Singleton == "" {
 		return nil
 	}
-	o := x.pkg.P.Types.Scope().Lookup(k.Singleton)
+	o := pk.P.Types.Scope().Lookup(k.Singleton)
 	if o == nil {
 		return nil
 	}
@@ -498,7 +505,7 @@ func (x *Exec) frameObligations(fr *Frame, out, entry *State, sp *FuncSpec) {
 	}
 	keys := x.allLocations()
 	for k := range out.store {
-		if strings.HasPrefix(k, "H:") || strings.HasPrefix(k, "S:") {
+		if strings.HasPrefix(k, "H:") || strings.HasPrefix(k, "S:") || isSpecialKey(k) {
 			found := false
 			for _, kk := range keys {
 				if kk == k {
@@ -515,7 +522,10 @@ func (x *Exec) frameObligations(fr *Frame, out, entry *State, sp *FuncSpec) {
 			continue
 		}
 		var now, was Value
-		if strings.HasPrefix(k, "G:") {
+		if isSpecialKey(k) {
+			now = Scalar(x.ghostInt(out, k), nil)
+			was = Scalar(x.lazySpecial(k, entryEpoch), nil)
+		} else if strings.HasPrefix(k, "G:") {
 			g := x.contracts().GhostIdx[k[2:]]
 			c := x.ctx(fr, out)
 			now = c.ghost(g)
